@@ -1059,13 +1059,13 @@ func (c *Context) Exp(d, x *Decimal) (Condition, error) {
 	if t < 0 {
 		t = 0
 	}
-	var k, r Decimal
-	k.SetFinite(1, t)
+	// r = x / 10**t exactly: a rounded quotient would drop the digits of an
+	// operand that has more of them than the working precision.
+	var r Decimal
+	r.Set(x)
+	r.Exponent -= t
 	nc := c.WithPrecision(cp)
 	nc.Rounding = RoundHalfEven
-	if _, err := nc.Quo(&r, x, &k); err != nil {
-		return 0, fmt.Errorf("Quo: %w", err)
-	}
 	var ra Decimal
 	ra.Abs(&r)
 	p := int64(cp) + int64(t) + 2
